@@ -770,9 +770,34 @@ func vfWrapDBs(t *testing.T, state *RuntimeState) {
 
 // restart: the daemon is stopped and started again on the same data directory — both handles are
 // closed and the REAL initDB runs again (cache file first, then the primary), nothing else.
+// vfWaitStorageQuiet waits until no other goroutine is inside storage.go. LoadUserProfile / GetSigned / getUsers run
+// the primary query in a goroutine of their own and return from the local copy when it has not answered in time
+// (modes t0, slow): that goroutine lives on, and reads the field state.db when it gets to run. A daemon never
+// replaces its database handles; this harness does (restart), so it lets those goroutines finish first — on a loaded
+// machine one of them woke up after state.db had been set to nil and the nil dereference in (*sql.DB).Prepare
+// took the whole test binary down (thorough tier, first attempt of the run of 2026-09-30).
+func vfWaitStorageQuiet(max time.Duration) {
+	deadline := time.Now().Add(max)
+	buf := make([]byte, 4<<20)
+	for {
+		n := runtime.Stack(buf, true)
+		busy := false
+		for i, g := range strings.Split(string(buf[:n]), "\n\n") {
+			if i > 0 && strings.Contains(g, "cmd/keymasterd/storage.go:") { // i == 0 is the calling goroutine
+				busy = true
+			}
+		}
+		if !busy || time.Now().After(deadline) {
+			return
+		}
+		time.Sleep(5 * time.Millisecond)
+	}
+}
+
 func (h *vfC15) restart() string {
 	state := h.state
 	h.setMode("up")
+	vfWaitStorageQuiet(20 * time.Second)
 	state.db.Close()
 	state.cacheDB.Close()
 	state.db, state.cacheDB = nil, nil
@@ -1142,7 +1167,7 @@ func (h *vfC15) setMode(mode string) bool {
 	vfF.mu.Lock()
 	vfF.down, vfF.readDelay, vfF.downAfter, vfF.readErr, vfF.pFailAt = false, 0, -1, false, -1
 	vfF.mu.Unlock()
-	h.state.remoteDBQueryTimeout = 2 * time.Second
+	h.state.remoteDBQueryTimeout = vfPrimaryAnswersInTime
 	switch mode {
 	case "up":
 	case "rerr": // flapping primary: the SELECTs answer with an error, writes go through
